@@ -258,7 +258,7 @@ def judge_alignment(ck, rng, fn, dn, src, tgt, X, Mtrue, noise, true_scaled, kla
 
 
 def run_alignment(ck, rng, dn, thorough):
-    reps = 120 if thorough else 36
+    reps = 240 if thorough else 36
     nper = 50 if thorough else 24
     shapes = [(), (1,), (4,), (7,), (2, 3)]
     case = 0
@@ -321,7 +321,7 @@ def run_reflection_stress(ck, rng, dn, thorough):
     on 'proper element' and 'not worse than the reference optimum' only (vectorised oracle)."""
     u = u_of(dn)
     B = 1500
-    calls = (10 if thorough else 3) * (3 if dn == "f32" else 1)
+    calls = (16 if thorough else 3) * (3 if dn == "f32" else 1)
     kinds = ("planar", "thin", "minimal3", "generic", "collinear", "regular")
     case = 0
     for rep in range(calls):
@@ -393,7 +393,7 @@ def se3_from_matrix(M):
 
 def run_icp(ck, rng, thorough):
     u = u_of("f64")
-    reps = 60 if thorough else 14
+    reps = 120 if thorough else 14
     case = 0
     shared = pp.module.ICP()          # reused across cases: the stepper must be reset by every call
     for rep in range(reps):
@@ -526,7 +526,7 @@ def pnp_item(rng, n):
 
 def run_pnp(ck, rng, thorough):
     u = u_of("f64")
-    reps = 60 if thorough else 14
+    reps = 120 if thorough else 14
     case = 0
     for rep in range(reps):
         for nsel in (6, 6, 7, 8, 12, 40, 100):
